@@ -1,8 +1,6 @@
 (* C17 Exec: checkers evaluated by vm_compute on (call history, observed behaviour of collection.Cache). *)
 From God Require Export Base.Prelude C17.Model.
 From God Require C10.Model.
-From GodGen Require C17_Gen.
-From Coq Require QArith.
 From God Require Export C17.Spec.
 
 Record obs := mkObs {
@@ -13,13 +11,25 @@ Record obs := mkObs {
   ob_timers : list nat        (* keys with a pending timer in the wheel's index after the call *)
 }.
 
+(* a call, or a bulk of calls observed only at its end (the driver issues them back to back):
+   XFill from n v j  = Set(k_from, v) ... Set(k_{from+n-1}, v), every one jittered to j;
+   XChurn from n v j = Set(k_i, v); Del(k_i) for i = from .. from+n-1 (timer index churn: n timer removals) *)
+Inductive xop := XO (o : cop) | XFill (from n v : nat) (j : Z) | XChurn (from n v : nat) (j : Z).
+
+Definition bulk_ops (x : xop) : list cop :=
+  match x with
+  | XO o => [o]
+  | XFill from n v j => map (fun i => KSet (from + i) v j) (seq 0 n)
+  | XChurn from n v j => flat_map (fun i => [KSet (from + i) v j; KDel (from + i)]) (seq 0 n)
+  end.
+
 Record ccase := mkcase {
   c_exp : Z;                  (* NewCache(expire), nanoseconds *)
   c_limit : Z;                (* WithLimit *)
   c_phase : nat;              (* wheel ticks before the first call *)
   c_ivl : Z;                  (* interval of the wheel the cache runs on, nanoseconds (NewCache: one second) *)
   c_hung : bool;              (* the driver gave up waiting: the cache or its wheel got stuck *)
-  c_ops : list cop;
+  c_ops : list xop;
   c_obs : list obs
 }.
 
@@ -37,10 +47,10 @@ Fixpoint perm_b (l1 l2 : list nat) : bool :=
 Definition is_take (o : cop) : bool := match o with KTake _ _ _ => true | _ => false end.
 
 (* ---- model agreement ---- *)
-Fixpoint model_run (c : wheel_cache) (ops : list cop) (os : list obs) : bool :=
+Fixpoint model_run (c : wheel_cache) (ops : list xop) (os : list obs) : bool :=
   match ops, os with
   | [], [] => true
-  | o :: ops', ob :: os' =>
+  | XO o :: ops', ob :: os' =>
       match wstep c o with
       | (c', r, fetched) =>
           option_eqb Nat.eqb r (ob_val ob) &&
@@ -49,6 +59,11 @@ Fixpoint model_run (c : wheel_cache) (ops : list cop) (os : list obs) : bool :=
           perm_b (map fst (c_data c')) (ob_keys ob) &&
           perm_b (map fst (C10.Model.timers (c_ts c'))) (ob_timers ob) && model_run c' ops' os'
       end
+  | x :: ops', ob :: os' =>      (* bulk: only the state at its end is observed *)
+      let c' := fold_left (fun c o => fst (fst (wstep c o))) (bulk_ops x) c in
+      option_eqb Nat.eqb None (ob_val ob) && negb (ob_err ob) && negb (ob_fetched ob) &&
+      perm_b (map fst (c_data c')) (ob_keys ob) &&
+      perm_b (map fst (C10.Model.timers (c_ts c'))) (ob_timers ob) && model_run c' ops' os'
   | _, _ => false
   end.
 
@@ -64,10 +79,24 @@ Definition cache_model_ok (c : ccase) : bool :=
 Definition keys_ok (limit : Z) (r : list rentry) (ob : obs) : bool :=
   perm_b (map rkey r) (ob_keys ob) && forallb (fun k => existsb (Nat.eqb k) (ob_timers ob)) (ob_keys ob) && ((limit <=? 0)%Z || (length (ob_keys ob) <=? Z.to_nat limit)).
 
-Fixpoint spec_run (I limit dflt : Z) (T : nat) (r : list rentry) (ops : list cop) (os : list obs) : bool :=
+(* the reference after a bulk of Sets / Set-Del pairs (default expiry) *)
+Definition ref_bulk (limit dflt : Z) (T : nat) (r : list rentry) (x : xop) : list rentry :=
+  fold_left (fun r o => match o with
+                        | KSet k v _ => rput limit (k, v, T, dflt) r
+                        | KDel k => rdel k r
+                        | _ => r
+                        end) (bulk_ops x) r.
+
+Fixpoint spec_run (I limit dflt : Z) (T : nat) (r : list rentry) (ops : list xop) (os : list obs) : bool :=
   match ops, os with
   | [], [] => true
-  | o :: ops', ob :: os' =>
+  | XFill a b c d :: ops', ob :: os' =>
+      if negb (in_scope I dflt) then true else
+      let r' := ref_bulk limit dflt T r (XFill a b c d) in keys_ok limit r' ob && spec_run I limit dflt T r' ops' os'
+  | XChurn a b c d :: ops', ob :: os' =>
+      if negb (in_scope I dflt) then true else
+      let r' := ref_bulk limit dflt T r (XChurn a b c d) in keys_ok limit r' ob && spec_run I limit dflt T r' ops' os'
+  | XO o :: ops', ob :: os' =>
       match o with
       | KSet k v _ =>
           if negb (in_scope I dflt) then true else
@@ -117,8 +146,10 @@ Definition cache_spec_ok (c : ccase) : bool :=
    one scripted draw d (an Int63) per result; Float64() = d / 2^63 *)
 Record jcase := mkj { j_base : Z; j_draws : list Z; j_durs : list Z; j_ints : list Z }.
 
-Definition dev_num : Z := QArith_base.Qnum C17_Gen.expiryDeviation.
-Definition dev_den : Z := Z.pos (QArith_base.Qden C17_Gen.expiryDeviation).
+(* expiryDeviation = 1/20 (Link.link_dev ties these to the regenerated constant; kept literal here so that the
+   checkers still build -- and still find the concrete failing case -- when the Go side no longer translates) *)
+Definition dev_num : Z := 1.
+Definition dev_den : Z := 20.
 Definition two63 : Z := 9223372036854775808.
 
 (* exact rational value (1 + dev - 2 dev d/2^63) * base, rounded down *)
